@@ -112,16 +112,52 @@ def run_c04(rep):
 
 def run_c07(rep):
     n, ops = sizes(rep, (400, 14), (6000, 40))
-    families.play_family(rep, n, ops, features=dict(params=0.85, shadow=0.5, block_jumps=0.4, top_jumps=0.4, probes=0.9,
+    families.play_family(rep, n, ops, features=dict(params=0.85, shadow=0.5, block_jumps=0.4, top_jumps=0.4, probes=0.9, long_params=0.7,
                                                     block_choices=0.7, loops=0.5),
                          weights=dict(choose=65, goto=10, bad=3, undo=5, redo=3, read=5),
                          oracle_names=["oracle_c07"], known_classes=known_classes("C07"), label="c07")
     compile_tie(rep, "c07-compile", dict(params=0.9, block_jumps=0.4, top_jumps=0.4, block_choices=0.7))
+    c07_sessions(rep)
     # call sites that do NOT follow Python's call rule must be rejected by the compiler (or fail as Python would): the same
     # corrupted-call-site family that decides C12, judged by Python's own ast + call rule
     import fam_graph
     n2, ops2 = sizes(rep, (200, 10), (3000, 30))
     fam_graph.graph_family(rep, n2, ops2, "C12", known_classes=known_classes("C12") | known_classes("C07"))
+
+
+C07_SESSIONS = [
+    # (source, ops, indices of steps whose displayed text must be identical): the same call from the same globals shows the same
+    # thing however often it is made — nothing of an earlier visit's parameter scope lingers (mutable defaults, in-place changes)
+    (":: Start\nHi\n+ [pack] -> Pack\n\n:: Pack(bag=[], extra={})\n~ bag.append(1)\n~ extra['k'] = len(bag)\nbag {bag} {extra}\n+ [again] -> Pack\n+ [back] -> Start\n",
+     [{"op": "choose", "i": 0}, {"op": "choose", "i": 0}, {"op": "choose", "i": 0}, {"op": "undo"}, {"op": "choose", "i": 0}], [0, 1, 2, 4]),
+    (":: Start\nHi\n+ [a] -> Room(tags=['x'])\n\n:: Room(tags=[], seen=[1, 2])\n~ tags.append('t')\n~ seen += [3]\n~ seen.append(len(tags))\n{tags} {seen}\n+ [again] -> Room\n+ [same] -> Room(tags=['x'])\n",
+     [{"op": "choose", "i": 0}, {"op": "choose", "i": 1}, {"op": "choose", "i": 0}, {"op": "choose", "i": 0}, {"op": "goto", "spec": "Room"}], [0, 1]),
+    (":: Start\n~ base = [0]\nHi\n+ [a] -> Box\n\n:: Box(items=list(base), label='b' * 2, n=len(base))\n~ items.append(n)\n{items} {label} {n}\n+ [again] -> Box\n",
+     [{"op": "choose", "i": 0}, {"op": "choose", "i": 0}, {"op": "choose", "i": 0}, {"op": "goto", "spec": "Box"}], [0, 1, 2, 3]),
+]
+
+
+def c07_sessions(rep):
+    n = 0
+    for src, ops, same in C07_SESSIONS + [(s_, o_[:3], sm[:2]) for (s_, o_, sm) in []]:
+        c = corr_play.run_fixed(src, ops, case_id="c07-session")
+        n += 1
+        if "compile_error" in c or c["real"].get("status") != "ok":
+            rep.violations.append({"cls": None, "family": "c07-sessions", "what": "session does not run: " + str(c.get("compile_error") or c["real"]), "source": src, "ops": ops})
+            continue
+        steps = c["real"]["steps"]
+        texts = [(steps[i]["resp"].get("out") or {}).get("content") if "out" in steps[i]["resp"] else (steps[i]["state"]["out"] or {}).get("content") for i in same]
+        if len(set(texts)) != 1 or texts[0] is None:
+            rep.violations.append({"cls": None, "family": "c07-sessions", "oracle": "same call, same globals, same text",
+                                   "what": f"the same call of a parameterised passage from the same globals shows different things on different visits: {texts}",
+                                   "source": src, "ops": ops, "variant": "main"})
+        # a fresh engine on the same compiled story starts from the same defaults too
+        c2 = corr_play.run_fixed(src, ops[:1], case_id="c07-session-2")
+        t2 = (c2["real"]["steps"][0]["resp"].get("out") or {}).get("content") if c2.get("real", {}).get("status") == "ok" else None
+        if t2 != texts[0]:
+            rep.violations.append({"cls": None, "family": "c07-sessions", "what": f"a second engine shows {t2!r} where the first showed {texts[0]!r}", "source": src, "ops": ops[:1], "variant": "main"})
+    rep.coverage.setdefault("families", {})["c07-sessions"] = {"cases": n}
+    rep.coverage["evaluations"] = rep.coverage.get("evaluations", 0) + n
 
 
 def run_c09(rep):
@@ -252,6 +288,9 @@ def run_c12(rep):
     import fam_graph
     n, ops = sizes(rep, (400, 12), (6000, 30))
     fam_graph.graph_family(rep, n, ops, "C12", known_classes=known_classes("C12"))
+    import fam_text
+    fam_text.initial_passage_family(rep, sizes(rep, 600, 12000))
+    text_tie(rep, "c12-text", quick=(200, 200, 150), thorough=(4000, 4000, 3000))
 
 
 def run_c19(rep):
@@ -285,6 +324,7 @@ def run_c17(rep):
     n, k = sizes(rep, (160, 6), (2500, 12))
     fam_style.style_family(rep, n, k)
     fam_style.string_level(rep, rep.seed, sizes(rep, 3000, 60000))
+    fam_style.py_body_family(rep, sizes(rep, 300, 6000))
     text_tie(rep, "c17-text", quick=(100, 200, 400), thorough=(2000, 4000, 10000))
 
 
